@@ -7,7 +7,8 @@ import random
 from harness import project as pj
 
 POOL = ["a", "ab", "a_b", "b", "ba", "c", "abc", "d", "aa", "core", "util", "utils", "m1", "m", "axpy", "apy",
-        "r2", "rx", "r_core"]          # the last three start with the root directory's name "r"
+        "r2", "rx", "r_core",          # these three start with the root directory's name "r"
+        "_p", "test_a", "conftest", "Mod", "__main__", "setup"]
 ODD = ["a+b", "c(d", "e-f", "g$", "h[1]"]          # legal file/dir names with regex metacharacters; never imported
 EXTERNALS = [["os"], ["os", "path"], ["xlib"], ["xlib", "sub"], ["xlib", "sub", "deep"], ["logging", "handlers"],
              ["ab"], ["a_b", "c"], ["rr", "x"], ["r2"], ["abx", "y"]]
